@@ -15,6 +15,7 @@ KIND_BY_MSG = [
     ('invariant not satisfied before loop', 'invariant:init'),
     ('loop invariant not satisfied', 'invariant'),
     ('assertion failed', 'assert'),
+    ('requires not satisfied', 'assert:by-requires'),
     ('possible arithmetic underflow/overflow', 'safety:overflow'),
     ('possible division by zero', 'safety:div0'),
     ('decreases not satisfied', 'termination'),
@@ -252,6 +253,10 @@ def parse_run(unit, res, text, gen_path, cmd, rc, out, err, wall):
                 break
         spans = d.get('spans', [])
         prim = [s for s in spans if s.get('is_primary')] or spans
+        vir_err = bool(ur.summary.get('encountered-vir-error'))
+        if not known_msg and not d.get('code') and not vir_err and prim and ur.summary:
+            # a verification-time failure with a message this driver does not know: still a failed obligation
+            kind, known_msg = 'other', True
         if d.get('code') or not known_msg or not prim:
             ur.compile_errors.append({'message': msg, 'code': (d.get('code') or {}).get('code') if d.get('code') else None,
                                       'line': prim[0]['line_start'] if prim else None,
